@@ -35,19 +35,14 @@ CHECKS = {
         note='Closure of `extends` under enclosing contexts is not proved (top level only; the tie nests pairs in no outer type either); values inside Known_C01 (>= 16K classes) excluded. Two genuine defects found here were repaired (fix: commits 546b054, 543a356). Trusted: Coq kernel, extraction + driver, harness, Python oracle.',
         design="6 (C05)"),
     "C06": dict(
-        technique="Coq proofs of rejection for every PER primitive (Props/C10.v *_reject) + L2 model + differential correspondence with a sat() oracle",
-        text="Rejection theorems for constrained/semi-constrained numbers, indices, sizes (Props/C10.v) and the L2 writer model; values with "
-             "exactly one violated constraint at a random nesting position (range, size, alphabet position classes, index) are run through "
-             "the real writer; oracle: non-extensible violation => constraint error, extensible => accepted and round-trips.",
-        note="Trusted: Coq kernel, extraction + driver, harness, Python sat() oracle; the F10-1 size family is exempted where the writer rejects lb <= n < 2*lb.",
+        technique='Coq proofs: rejection for every PER primitive (Props/C10.v *_reject), rejection at every nesting depth and panic-freedom of the type-level writer (Uper/RejectNestedProofs.v), no-wrong-encoding as a corollary of the round-trip theorem + differential correspondence with a sat() oracle',
+        text='C06_reject_nested: for every well-formed type and representable value with a violated non-extensible constraint anywhere inside an encoded position (violates t v = true), write_ty returns an Err (never Ok, never Panic); C06_writer_never_panics for all wf types/values; C06_never_wrong_encoding / C06_no_other_value: a successful write reads back as exactly that value; C06_extensible_*_out_of_root_roundtrips; named error kinds at top level (13 theorems). Values with exactly one violated constraint at a random nesting position (range, size, alphabet position classes incl. code points above U+00FF, index) are run through the real writer; oracle: non-extensible violation => constraint error, extensible => accepted and round-trips.',
+        note='The error KIND at depth is not named by the theorem (the first failing position in encoding order decides it); kinds_ok (no negative lower bound on a u64 INTEGER, which the compiler never produces) is a hypothesis with a witness that it is needed. Trusted: Coq kernel, extraction + driver, harness, Python sat() oracle; the F10-1 size family is exempted where the writer rejects lb <= n < 2*lb.',
         design="6 (C06)"),
     "C07": dict(
-        technique="Coq model of the recursive-descent parser + print/parse theorems for sub-languages (partial) + differential correspondence with an independent canon(A) oracle",
-        text="Function-for-function fuelled Gallina model of asn/model.rs and asn/*.rs producing the same model dump as the crate (tie is real: "
-             "0 disagreements), print->parse theorems for Tag, SIZE, INTEGER ranges and named numbers (Props/C07.v, _partial names), refutation "
-             "witnesses for 10 deviation classes; grammar-based generator of abstract modules with layout variation, judged by canon(A) computed "
-             "independently in Python.",
-        note="Partial: ENUMERATED, literals, OIDs, imports, component/CHOICE/OF grammar and module level are covered by tie + oracle only; 17 known findings (F07-*).",
+        technique='Coq model of the recursive-descent parser + parse-after-print theorems for every sub-language and for whole modules + differential correspondence with an independent canon(A) oracle',
+        text='Function-for-function fuelled Gallina model of asn/model.rs and asn/*.rs producing the same model dump as the crate (tie is real: 0 disagreements). Theorems: C07_parse_print (parse (print_module m) = denote_module m for every wf_module), C07_parse_print_type (the mutually recursive type grammar), C07_parse_print_{enumerated,oid,opt_oid,imports,value_reference}, tags, SIZE, INTEGER ranges, named numbers; literals _partial; refutation witnesses for 12 deviation classes. Grammar-based generator of abstract modules with layout variation, judged by canon(A) computed independently in Python.',
+        note="Printing is to token lists (the character level is C13's theorem); wf_module excludes the forms the parser rewrites (named classes, each with a witness); 17 known findings (F07-*).",
         design="6 (C07)"),
     "C08": dict(
         technique="Coq proof of printer/parser inversion for the attribute type sub-language (partial) + differential correspondence of to_rust -> generator -> attribute parser",
@@ -65,32 +60,24 @@ CHECKS = {
         note="Partial (DESIGN section 8): derives, type/borrow checking of generated bodies and constants are checked by rustc only; 18 known findings (F09-*).",
         design="6 (C09)"),
     "C12": dict(
-        technique="Coq model of the resolver + lookup-level substitution theorems (partial) + differential correspondence of referencing vs literal variants",
-        text="Gallina model of resolve.rs/resolve_scope.rs (local first, first import listing the name, OID match) with C12_subst_*_partial, "
-             "C12_unresolved_is_error, C12_non_integer_is_error, C12_negative_size_is_error; literals hoisted into value references (local / sibling "
-             "module with/without OID, shuffled load order, dangling and wrong-kind references) and compared through the real MultiModuleResolver.",
-        note="Partial: lifting over the whole AST and load-order irrelevance are tie + oracle only; known findings F12-1..3.",
+        technique='Coq model of the resolver + substitution theorem over the whole AST, error theorems and load-order irrelevance + differential correspondence of referencing vs literal variants',
+        text='Gallina model of resolve.rs/resolve_scope.rs (local first, first import listing the name, OID match) with C12_subst_type/definition/module/all, C12_literalize_* (the substitution as a function, complete), C12_unresolved_is_error_*, C12_non_integer_is_error_* (incl. negative SIZE), C12_order_irrelevant_* under unique_targets and a witness that duplicate module names make load order matter; literals hoisted into value references (local / sibling module with/without OID, shuffled load order, dangling and wrong-kind references) and compared through the real MultiModuleResolver.',
+        note="The error theorems say 'not Ok' without naming the error; known findings F12-1..3.",
         design="6 (C12)"),
     "C14": dict(
-        technique="Coq totality theorems for tokenizer and parser productions (partial) + differential correspondence on mutated modules and token soups under process supervision",
-        text="C14_lex_total_partial (tokenizer never errs, panics only in the documented class), C14_parse_total_partial (no Panic / no fuel exhaustion for "
-             "tag, size, OID, imports, enumerated productions); 12 000 (quick) mutated modules and token soups through tokenizer -> parser -> resolver -> "
-             "to_rust -> to_protobuf with per-stage outcome, model and crate compared, oracle: no panic/hang except the sanctioned one.",
-        note="Partial: fuel sufficiency of the recursive type grammar, error-carries-token and totality of resolve/to_rust/to_protobuf are tie + oracle only; "
-             "non-ASCII char classification outside the model; known findings F14-1, F14-2.",
+        technique='Coq totality theorems for the tokenizer and the whole parser model (no Panic, no fuel exhaustion, every loop consumes a token) + differential correspondence on mutated modules and token soups under process supervision',
+        text='C14_lex_total (tokenizer never errs, panics only in the documented class), C14_parse_total (for every token list and fuel >= 2*length+4 the parser model never panics and never runs out of fuel), C14_lex_parse_total, C14_error_carries_token; 12 000 (quick) mutated modules and token soups through tokenizer -> parser -> resolver -> to_rust -> to_protobuf with per-stage outcome, model and crate compared, oracle: no panic/hang except the sanctioned one.',
+        note='Totality of resolve/to_rust/to_protobuf is tie + process supervisor only (two divergences with witnesses); non-ASCII char classification outside the model; known findings F14-1, F14-2.',
         design="6 (C14)"),
     "C17": dict(
-        technique="Coq proofs for the protobuf primitives (all u64/i64) and flat messages (partial) + differential correspondence on a 20-type zoo, both writer back ends",
-        text="C17_varint/zigzag/tag/number_roundtrip (full), C17_roundtrip_partial, C17_roundtrip_flat_partial, C17_backends_agree_partial over a model of "
-             "protocol/protobuf and rw/proto_{write,read}.rs; zoo values through the real writer (Vec and fixed slice) and reader, judged by a Python "
-             "ProtobufEq oracle and byte equality of the back ends.",
-        note="Partial: the full type induction is not proved; known findings F17-1..6.",
+        technique='Coq proof of the protobuf round trip by induction over the nested type universe, for both writer back ends + differential correspondence on a 22-type zoo',
+        text="C17_roundtrip: for every well-formed type and value outside Known_C17 (CHOICE with NULL or list alternative, list of lists, list of NULL, BitVec with excess bytes) pwrite succeeds and pread returns a protobuf-equal value; C17_backends_agree: the slice writer produces the Vec writer's bytes or fails exactly when the capacity is short, for every type/value/capacity; primitive round trips (varint/zigzag/tag/number) for all u64/i64; refuted witnesses per class. Zoo values through the real writer (Vec and fixed slice) and reader, judged by a Python ProtobufEq oracle and byte equality of the back ends.",
+        note='Encodings of 2^64 bytes or more excluded by hypothesis; sized excludes >= 2^29 fields and > 2^32 enum variants; known findings F17-1..7.',
         design="6 (C17)"),
     "C18": dict(
-        technique="Coq reference proto3 decoder + numbering theorem + protoc as second independent decoder in the tie",
-        text="C18_numbers_match (full), C18_decodes_under_schema_partial, C18_schema_valid_partial; the generated .proto is validated and the writer's bytes are "
-             "decoded by /usr/bin/protoc and by the Coq reference decoder pb_decode, both compared with the value.",
-        note="Partial: 'valid proto3' relative to a transcribed grammar subset; protoc (3.21.12, system tool) only confronts generated samples; known findings F18-1..4.",
+        technique="Coq reference proto3 decoder + proof that the writer's bytes decode under schema_of to the value's fields + protoc as second independent decoder, incl. a two-module schema with imports",
+        text="C18_decodes_under_schema: for every well-formed type/value outside Known_C18, pb_decode (schema_of t) (pwrite t v) = the field values of v; C18_numbers_match (field/oneof/enum numbering); the generated .proto files (zoo, bad zoo, a two-module zoo with imported types in every position) are parsed, compared with schema_of, validated by /usr/bin/protoc, and the writer's bytes are decoded by protoc --decode and by the extracted pb_decode, both compared with the value.",
+        note="'valid proto3' is relative to protoc 3.21.12 (system tool) and a transcribed grammar subset; SET numbering class lives at declaration level; known findings F18-1..5.",
         design="6 (C18)"),
     "C19": dict(
         technique='Coq proof of erasure (a second model of the reader as built with the feature, every cfg-gated statement a log push; C19_erasure by induction on types) + both feature builds tied to the models and to each other',
